@@ -143,6 +143,36 @@ def caches(R, P, fns):
     fr = f.calls("aws_linked_list_front")
     mv = f.calls("aws_linked_hash_table_move_node_to_end_of_list")
     R.check(len(fr) == 1 and len(mv) == 1 and not f.calls("aws_linked_list_back"), "POLICY", "use-lru:front-to-back", "%s()" % f.name, "use-lru takes the front and moves it to the back")
+    # a lookup / use counts as a use whatever the entry holds and however full the cache is: the move depends only on
+    # `an entry was found` (find-and-move) / `the list is not empty` (use-lru)
+    for fname, allowed in (("aws_linked_hash_table_find_and_move_to_back", {"err_val", "element"}), ("s_lru_cache_use_lru_element", {"list", "aws_linked_list_empty", "cache", "table"})):
+        g_ = fns[fname]
+        for e in g_.calls("aws_linked_hash_table_move_node_to_end_of_list"):
+            extra = []
+            for c_, p_, b_ in RU.guards(g_, e):
+                names = {x.get("n") or x.get("f") or x.get("callee") for x in g_.walk(g_.d(c_), follow_refs=True) if x["k"] in ("var", "member", "call")}
+                names.discard(None)
+                if not names <= allowed | {"lru_cache", "impl"}:
+                    extra.append(g_.show(g_.d(c_))[:60])
+            R.check(not extra, "POLICY", "%s:move-depends-only-on-found" % fname, where(g_, e), "the entry is moved to the back whenever it was found / the list is not empty",
+                    "the move to the back is additionally conditioned on %s: a lookup of such an entry (a NULL value, a cache that is not full yet) does not count as a use and the wrong entry is evicted later" % extra)
+    # the constructors forward their same-named parameters in the same positions
+    init = fns.get("aws_linked_hash_table_init")
+    if R.require(init is not None, "aws_linked_hash_table_init not found"):
+        pn = [p["n"] for p in init.params]
+        n_c = 0
+        for cn, cf in sorted(fns.items()):
+            for e in cf.calls("aws_linked_hash_table_init"):
+                own = {p["n"] for p in cf.params}
+                n_c += 1
+                wrong = []
+                for i_, a in enumerate(e.node["a"]):
+                    v = RU.uncast(cf, a)
+                    if v is not None and v["k"] == "var" and v["n"] in own and v["n"] in pn and i_ < len(pn) and pn[i_] != v["n"]:
+                        wrong.append("%s passed as %s" % (v["n"], pn[i_]))
+                R.check(not wrong, "POLICY", "%s:destructors-forwarded-in-place" % cn, where(cf, e), "key / value destructors (and hash / equality) are forwarded to the parameters of the same name",
+                        "%s forwards its parameters to aws_linked_hash_table_init in the wrong positions (%s): keys are destroyed with the value destructor and values with the key destructor" % (cn, ", ".join(wrong)))
+        R.require(n_c >= 3, "only %d cache constructors calling aws_linked_hash_table_init found" % n_c)
     f = fns["s_lru_cache_get_mru_element"]
     R.check(len(f.calls("aws_linked_list_back")) == 1 and not f.calls({"aws_linked_list_front", "aws_linked_hash_table_move_node_to_end_of_list"}), "POLICY", "get-mru:reads-back", "%s()" % f.name, "get-mru reads the back without reordering")
     f = fns["aws_linked_hash_table_move_node_to_end_of_list"]
@@ -267,6 +297,8 @@ MUTANTS = [
      "old": "if (aws_linked_hash_table_get_element_count(&cache->table) > cache->max_items) {", "new": "if (aws_linked_hash_table_get_element_count(&cache->table) >= cache->max_items) {"},
     {"name": "lru-find-plain", "file": "source/lru_cache.c", "expect": "POLICY",
      "old": "return (aws_linked_hash_table_find_and_move_to_back(&cache->table, key, p_value));", "new": "return (aws_linked_hash_table_find(&cache->table, key, p_value));"},
+    {"name": "find-moves-only-non-null-values", "file": LHT, "expect": "POLICY", "old": "    aws_linked_hash_table_move_node_to_end_of_list(table, linked_node);\n    return AWS_OP_SUCCESS;", "new": "    if (*p_value) {\n        aws_linked_hash_table_move_node_to_end_of_list(table, linked_node);\n    }\n    return AWS_OP_SUCCESS;"},
+    {"name": "lifo-destructors-transposed", "file": "source/lifo_cache.c", "expect": "POLICY", "old": "hash_fn, equals_fn, destroy_key_fn, destroy_value_fn, max_items", "new": "hash_fn, equals_fn, destroy_value_fn, destroy_key_fn, max_items"},
     {"name": "move-to-end-shortcut", "file": LHT, "expect": "POLICY", "old": "    struct aws_linked_hash_table_node *node) {\n\n    aws_linked_list_remove(&node->node);", "new": "    struct aws_linked_hash_table_node *node) {\n\n    if (aws_linked_list_next(&node->node) == aws_linked_list_back(&table->list)) {\n        return;\n    }\n    aws_linked_list_remove(&node->node);"},
     {"name": "overwrite-refreshes-in-place", "file": LHT, "expect": "PUT", "old": "        element->key = key;\n    }\n\n    node->value = p_value;", "new": "        element->key = key;\n        if (was_added == 2) {\n            aws_mem_release(table->allocator, node);\n            return AWS_OP_SUCCESS;\n        }\n    }\n\n    node->value = p_value;"},
     {"name": "node-keeps-old-key", "file": LHT, "expect": "PUT", "old": "    node->key = key;\n", "new": "    node->key = element->key;\n"},
